@@ -217,6 +217,11 @@ def run(ctx, report):
                          % (deal[op], sorted(info['idx']), op), where(ea, fn), witness='eax^ebx^ecx with all three constant: the third operand is dropped')
 
     R3 = report.rule('C06.D3', 'no always-raising construct in the evaluation closure', floor=40)
+    try:
+        ctx.mod('modint').method('moduint', '__index__')
+        has_index = True
+    except AnalysisError:
+        has_index = False
     skip = {'to_file', 'from_file'}
     for name, fn in sorted(methods.items()):
         inst = 'eval_abs.%s' % name
@@ -225,6 +230,11 @@ def run(ctx, report):
         for n in walk_no_nested(fn):
             if isinstance(n, ast.BinOp) and isinstance(n.op, (ast.Div, ast.FloorDiv)) and is_mod(n.left):
                 hits.append((n, 'division of a fixed-width integer: moduint defines only the python-2 __div__, so / and // raise TypeError'))
+            # struct.pack of an operand: args[i] are moduint objects, which define no __index__
+            if isinstance(n, ast.Call) and u(n.func) == 'struct.pack' and name.startswith('eval_op') and not has_index:
+                for a in n.args[1:]:
+                    if (isinstance(a, ast.Subscript) and u(a.value) == 'args') or is_mod(a):
+                        hits.append((n, 'struct.pack of the fixed-width integer %s: moduint defines no __index__, struct.error is raised for every input' % u(a)))
         if name in skip:
             for n, what in hits:
                 R3.note('%s (persistence helper, outside the evaluation closure): %s' % (inst, what))
@@ -280,9 +290,20 @@ def run(ctx, report):
             continue
         # names bound to the fixed-width payload of a constant (x.arg) without int()
         fw = set()
+        # local helper functions that return such a payload
+        fw_funcs = set()
+        for g in ast.walk(fn):
+            if isinstance(g, ast.FunctionDef) and g is not fn:
+                for r in ast.walk(g):
+                    if isinstance(r, ast.Return) and r.value is not None and (
+                            (isinstance(r.value, ast.Attribute) and r.value.attr == 'arg') or
+                            (isinstance(r.value, ast.BinOp) and isinstance(r.value.op, (ast.BitAnd, ast.RShift)) and isinstance(r.value.left, ast.Attribute) and r.value.left.attr == 'arg')):
+                        fw_funcs.add(g.name)
         for n in walk_no_nested(fn):
             if isinstance(n, ast.Assign) and len(n.targets) == 1 and isinstance(n.targets[0], ast.Name):
                 v = n.value
+                if isinstance(v, ast.Call) and isinstance(v.func, ast.Name) and v.func.id in fw_funcs:
+                    fw.add(n.targets[0].id)
                 if isinstance(v, ast.Attribute) and v.attr == 'arg':
                     fw.add(n.targets[0].id)
                 elif isinstance(v, ast.BinOp) and isinstance(v.left, ast.Attribute) and v.left.attr == 'arg' and isinstance(v.op, (ast.BitAnd, ast.BitOr, ast.RShift)):
@@ -327,6 +348,53 @@ def run(ctx, report):
                          'conditional piece is the lowest one' % norm(bad[0])[:60], where(ea, n), witness='Compose(a@0:8, (z?1:2)@8:16) evaluates to z?(0x11,0x13)')
         else:
             R6.ok(inst, sample='conditional arms masked and shifted by start')
+
+    # constant pieces of a width no ExprInt can carry: the lifter composes byte/word writes with the remaining bits of the register
+    # (reg[8:32], 24 bits); with reg constant that piece evaluates to Slice(ExprInt) because the simplifier folds Slice(int) only for
+    # widths in tab_size_int -- eval_ExprCompose has to treat it as a constant piece or the result is never the constant
+    odd = {}
+    for inst_ in L.lift_all():
+        if inst_.func is None or inst_.unknown:
+            continue
+        for dec, tmpl in inst_.results:
+            if isinstance(tmpl, LiftError) or not isinstance(tmpl, list):
+                continue
+            for aff in tmpl:
+                # ExprAff(reg[a:b], v) is stored as reg = Compose(reg[0:a], v, reg[b:size]) (ExprAff.__init__ / slice_rest, see C11.D5)
+                if aff.kind == 'Aff' and aff.dst.kind == 'Slice' and aff.dst.arg.kind == 'Id':
+                    try:
+                        size = get_size(aff.dst.arg)
+                    except Exception:
+                        continue
+                    for w in (aff.dst.start, size - aff.dst.stop):
+                        if w > 0 and w not in (1, 8, 16, 32, 64):
+                            odd.setdefault(w, inst_.func.name)
+                for x in walk_terms(aff):
+                    if x.kind == 'Compose':
+                        for piece, a, b in x.args:
+                            if isinstance(piece, Term) and piece.kind == 'Slice' and b - a > 0 and (b - a) not in (1, 8, 16, 32, 64):
+                                odd.setdefault(b - a, inst_.func.name)
+    slice_rule = [n for n in ast.walk(hlp.func('_expr_simp')) if isinstance(n, ast.If) and 'in tab_size_int' in u(n.test) and 'total_bit' in u(n.test)]
+    if odd and slice_rule:
+        pieces_ok = False
+        for n in ast.walk(ec):
+            if isinstance(n, ast.BoolOp) and isinstance(n.op, ast.And):
+                t = [u(v).replace(' ', '') for v in n.values]
+                sl = [x for x in t if x.startswith('isinstance(') and x.endswith(',ExprSlice)')]
+                for x in sl:
+                    v = x[len('isinstance('):-len(',ExprSlice)')]
+                    if 'isinstance(%s.arg,ExprInt)' % v in t:
+                        pieces_ok = True
+        inst = 'eval_ExprCompose:constant-slice-piece'
+        if pieces_ok:
+            R6.ok(inst, sample='pieces of %s bits (%s): Slice(ExprInt) is recognised as a constant piece' % (sorted(odd), sorted(set(odd.values()))[:3]))
+        else:
+            w = sorted(odd)[0]
+            R6.violation(inst, 'placement:constant-slice-piece', 'the lifter (%s) composes pieces of %s bits; with constant inputs such a piece evaluates to Slice(ExprInt) (no %d-bit ExprInt), '
+                         'which eval_ExprCompose does not recognise as constant: the composition is never folded' % (odd[w], sorted(odd), w), where(ea, ec),
+                         witness="mov bl, 0x10 with ebx = 0x12345678 evaluates to (0x10,0,8, 0x12345678[8:32],8,32), not 0x12345610")
+    else:
+        R6.ok('eval_ExprCompose:constant-slice-piece:n/a', nontrivial=False)
 
     R4 = report.rule('C06.D4', 'results are cast to the operands\' type; identifiers are looked up exactly', floor=2)
     txt = u(eo)
@@ -541,6 +609,7 @@ def run(ctx, report):
 
 
 MUTANTS = [
+    ('compose-no-const-slice', 'miasmx/expression/expression_eval_abstract.py', "            if isinstance(x, ExprSlice) and isinstance(x.arg, ExprInt):\n                return (int(x.arg.arg) >> x.start) & ((1<<(x.stop-x.start))-1)\n", "", 'C06.D6'),
     ('nocheck-misspelt', 'miasmx/expression/expression_eval_abstract.py', "    op_size_no_check = ['<<<', '>>>', 'a>>', '>>', '<<',", "    op_size_no_check = ['<<<', '>>>', 'a<<', '>>', '<<',", 'C06.D1'),
     ('rcl-narrow-shift', 'miasmx/expression/expression_eval_abstract.py', "        r = int(r)\n        tmpa = (int(args[0])<<1) | (int(args[2])&1)\n        rez = (tmpa<<r) | (tmpa >> (op_size+1-r))", "        r = int(r)\n        tmpa = int(args[0]<<1) | (int(args[2])&1)\n        rez = (tmpa<<r) | (tmpa >> (op_size+1-r))", 'C06.D5'),
     ('rol-of-fullwidth', 'miasmx/arch/ia32_sem.py', "    e.append(ExprAff(of, ExprOp(\"^\", get_op_msb(c), new_cf[0:1])))\n    e.append(ExprAff(a, c))\n    return e\n\ndef l_ror", "    e.append(ExprAff(of, ExprOp(\"^\", get_op_msb(c), new_cf)))\n    e.append(ExprAff(a, c))\n    return e\n\ndef l_ror", 'C06.D1'),
@@ -564,7 +633,7 @@ MUTANTS = [
     ('parity-wide', 'miasmx/expression/expression_eval_abstract.py', "    def parity(self, a):\n        tmp = (a)&0xFF", "    def parity(self, a):\n        tmp = (a)&0xFFFF", 'C06.D5'),
     ('no-bool', 'miasmx/tools/modint.py', "    def __bool__(self):\n        return self.arg != 0\n    __nonzero__ = __bool__\n", "", 'C06.D3'),
     ('bsf-two-args-only', 'miasmx/expression/expression_eval_abstract.py', "        if len(args) == 1:\n            return self.my_bsf(args[0])\n", "", 'C06.D1'),
-    ('compose-fw-shift', 'miasmx/expression/expression_eval_abstract.py', "        for xx, start, stop in args:\n            a = int(xx.arg)\n", "        for xx, start, stop in args:\n            a = xx.arg\n", 'C06.D6'),
+    ('compose-fw-shift', 'miasmx/expression/expression_eval_abstract.py', "            if isinstance(x, ExprInt):\n                return int(x.arg)\n            if isinstance(x, ExprSlice)", "            if isinstance(x, ExprInt):\n                return x.arg\n            if isinstance(x, ExprSlice)", 'C06.D6'),
     ('compose-cond-noshift', 'miasmx/expression/expression_eval_abstract.py', "                    mysrc1 = (int(a.src1.arg)&mask)<<start\n", "                    mysrc1 = (int(a.src1.arg)&mask)\n", 'C06.D6'),
     ('no-slice-eval', 'miasmx/expression/expression_eval_abstract.py', "                      ExprSlice: self.eval_ExprSlice,\n", "", 'C06.D4'),
 ]
